@@ -46,6 +46,7 @@ type Kernel struct {
 	Prelude  []string          // lean `let` lines inserted first
 	RetMode  string            // value | valueErr | errOnly | custom
 	RetExpr  string            // errOnly / custom: lean expression returned on success (may mention vars)
+	RetNil   string            // custom: lean expression for `return nil` (default: RetExpr)
 	FallThru string            // what falling off the end returns (lean expr); default = RetExpr
 	Effects  map[string]string // call selector text -> lean template pushed on `evs`
 	Skips    []string          // call selector prefixes translated to nothing
@@ -661,6 +662,9 @@ func (t *tr) ret(r *ast.ReturnStmt) string {
 		}
 		return "Except.error \"" + errName(r.Results[0]) + "\""
 	case "custom":
+		if t.k.RetNil != "" && len(r.Results) == 1 && exprText(r.Results[0]) == "nil" {
+			return t.k.RetNil
+		}
 		return t.retOK()
 	}
 	failf("unknown return mode %s", t.k.RetMode)
